@@ -49,6 +49,25 @@ Theorem C17_iterator_elems_sound :
     end.
 Proof. exact iterator_elems_sound. Qed.
 
+(* "no shape mismatch turns into undefined": explain_ops is evaluate_ops with the undefined outcomes split into
+   XMissing (undefined / absent value, index out of range, key not present, function returned None) and XMismatch (the
+   value's shape does not fit the type-checked operation).  For a conforming value, a type-checked path and index /
+   argument values of the kinds the compiler saw, XMismatch is impossible: whenever a type-checked module expression
+   is undefined, it is for a reason visible in the published value. *)
+Theorem C17_explain_agrees :
+  forall ops v exprs,
+    model_evaluate_ops v ops exprs
+    = match explain_ops v ops exprs with XOk r => Ok r | XMissing => Undef | XMismatch => Undef end.
+Proof. exact explain_ops_agrees. Qed.
+
+Theorem C17_no_shape_mismatch :
+  forall path ty v exprs ty',
+    Conforms ty v ->
+    typechecks ty path = Some ty' ->
+    exprs_match path exprs ->
+    explain_ops v (ops_of path) exprs <> XMismatch.
+Proof. exact no_shape_mismatch. Qed.
+
 (* the boolean check is the predicate on function-free values *)
 Theorem C17_conforms_reflects :
   forall v ty, fn_free v = true -> (conforms ty v = true <-> Conforms ty v).
@@ -85,6 +104,12 @@ Example C17_access_example :
   /\ model_evaluate_ops v (ops_of path) [PInteger 0] = Ok (VBytes [46; 116]).
 Proof. vm_compute. repeat split. Qed.
 
+(* without conformance the silent failure exists: a bytes value where an object is declared *)
+Example C17_shape_mismatch_example :
+  explain_ops (VObject [("version", VBytes [49])]%string) [OpSubfield "version"; OpSubfield "major"]%string [] = XMismatch
+  /\ model_evaluate_ops (VObject [("version", VBytes [49])]%string) [OpSubfield "version"; OpSubfield "major"]%string [] = Undef.
+Proof. vm_compute. repeat split. Qed.
+
 Example C17_counts_nonempty : (0 <? nlen count_pairs) = true.
 Proof. vm_compute. reflexivity. Qed.
 
@@ -93,6 +118,8 @@ Print Assumptions C17_access_sound_bool.
 Print Assumptions C17_expr_value_typed.
 Print Assumptions C17_iterator_elems_sound.
 Print Assumptions C17_conforms_reflects.
+Print Assumptions C17_explain_agrees.
+Print Assumptions C17_no_shape_mismatch.
 Print Assumptions C17_trees_wf.
 Print Assumptions C17_counts.
 Print Assumptions C17_caps_well_typed.
